@@ -1,5 +1,6 @@
 import SimilarVerif.Props.C01
 import SimilarVerif.Lemmas.PatienceTotal
+import SimilarVerif.Lemmas.CapturePatience
 /-!
 # C15 — Patience keeps a maximum in-order set of unique common items
 
@@ -93,5 +94,68 @@ theorem reported_count_ge_lcs : type_of% @PatienceT.patience_lis_count := @Patie
 
 /-- every pair the outer run reports is an anchor of equal items and is reported to the user -/
 theorem anchors_are_reported : type_of% @PatienceT.patience_anchors_reported := @PatienceT.patience_anchors_reported
+
+end SimilarVerif.C15
+
+namespace SimilarVerif.C15
+open SimilarVerif Spec
+
+/-- the raw Patience stream (no deadline) has at least `lcsLen(unique old, unique new)` equal items -/
+theorem raw_count_ge_lis : type_of% @CaptureP.patience_raw_nEq_ge_lis := @CaptureP.patience_raw_nEq_ge_lis
+
+/-- **the size clause for the CAPTURED diff** (no deadline, shipped and repaired clean-up): whenever
+`capture_diff` with Patience returns, the op list is a valid script whose Equal segments hold at least as
+many items as the longest common in-order subsequence of the items unique on each side (the clean-up and
+`Replace` keep the number of equal items) -/
+theorem captured_count_ge_lis : type_of% @CaptureP.captured_count_ge_lis := @CaptureP.captured_count_ge_lis
+
+/-- … and it does return when the same-side comparisons of `unique` are defined -/
+theorem captured_count_ge_lis_total : type_of% @CaptureP.captured_count_ge_lis_total :=
+  @CaptureP.captured_count_ge_lis_total
+
+/-- **the pairing clause for the captured diff**: an old item the captured Patience diff reports Equal is
+paired with an equal new item; if `j'` is the only new position holding an item equal to it (the item is
+unique on the new side), it is paired with exactly that position -/
+theorem captured_anchor_matched_to_counterpart (E : Env) (repair : Bool) (os oe ns ne : Nat) (w : World)
+    (ops : List Op) (w' : World) (ho : os ≤ oe) (hn : ns ≤ ne) (hb : InBounds E os oe ns ne)
+    (hc : captureDiff .patience E repair os oe ns ne w = .ok (ops, w'))
+    (co cn len t : Nat) (hm : Op.equal co cn len ∈ ops) (ht : t < len)
+    (j' : Nat) (huniq : ∀ j, eqB E (co + t) j = true → j = j') :
+    eqB E (co + t) (cn + t) = true ∧ cn + t = j' := by
+  have hw := CaptureP.captured_patience_walk E repair os oe ns ne w ho hn hb ops w' hc
+  exact ⟨equal_segments_pair_equal_items _ ops _ _ _ _ hw co cn len hm t ht,
+    anchor_matched_to_counterpart _ ops _ _ _ _ hw co cn len t hm ht j' huniq⟩
+
+#print axioms raw_count_ge_lis
+#print axioms captured_count_ge_lis
+#print axioms captured_count_ge_lis_total
+#print axioms captured_anchor_matched_to_counterpart
+
+/-! non-vacuity: `[7,1,8,2]` vs `[1,9,2,7]`; unique common items `7,1,2` / `1,2,7`, longest in-order set `1,2` -/
+
+example : (captureDiff .patience (Env.ofSeqs #[7,1,8,2] #[1,9,2,7]) false 0 4 0 4 {}).map (·.1) =
+    .ok [.delete 0 1 0, .equal 1 0 1, .replace 2 1 1 1, .equal 3 2 1, .insert 4 3 1] := by rfl
+
+example : (0 ≤ 4) ∧ InBounds (Env.ofSeqs #[7,1,8,2] #[1,9,2,7]) 0 4 0 4 ∧
+    (∀ i j, 0 ≤ i → i < 4 → 0 ≤ j → j < 4 → ((Env.ofSeqs #[7,1,8,2] #[1,9,2,7]).oo i j).isSome) ∧
+    (∀ i j, 0 ≤ i → i < 4 → 0 ≤ j → j < 4 → ((Env.ofSeqs #[7,1,8,2] #[1,9,2,7]).nn i j).isSome) ∧
+    ({} : World).clock = none := by
+  have key : ∀ i, i < 4 → i = 0 ∨ i = 1 ∨ i = 2 ∨ i = 3 := by omega
+  refine ⟨by decide, ?_, ?_, ?_, rfl⟩ <;>
+  · intro i j _ hi _ hj
+    rcases key i hi with rfl | rfl | rfl | rfl <;> rcases key j hj with rfl | rfl | rfl | rfl <;> decide
+
+/-- the hypotheses of the pairing clause: `equal 1 0 1` is in the captured list, and new position `0` is
+the only one holding an item equal to `old[1]` -/
+example : Op.equal 1 0 1 ∈ [Op.delete 0 1 0, .equal 1 0 1, .replace 2 1 1 1, .equal 3 2 1, .insert 4 3 1] ∧
+    (0 < 1) ∧ ∀ j, eqB (Env.ofSeqs #[7,1,8,2] #[1,9,2,7]) (1 + 0) j = true → j = 0 := by
+  refine ⟨by decide, by decide, ?_⟩
+  intro j hj
+  by_cases h4 : j < 4
+  · have : j = 0 ∨ j = 1 ∨ j = 2 ∨ j = 3 := by omega
+    rcases this with rfl | rfl | rfl | rfl <;> first | rfl | (revert hj; decide)
+  · exfalso
+    have : ([1,9,2,7] : List Nat)[j]? = none := by simp; omega
+    simp [eqB, Env.ofSeqs, this] at hj
 
 end SimilarVerif.C15
